@@ -62,7 +62,7 @@ func (sc *scenario) node(i int) *node.Node { return sc.w.Nodes[i] }
 var favTx = map[string][]string{
 	"value":  {"valid", "same-input-twice-rich", "yield-swap", "fee-exact", "fee-low", "fee-plus1", "overflow", "huge-output", "huge-output", "many-outputs", "consolidate", "zero-output"},
 	"spend":  {"valid", "double-spend", "same-input-twice", "same-input-twice-rich", "spend-pooled", "spend-last-block", "duplicate", "bad-index", "unknown-ref"},
-	"owner":  {"valid", "valid", "zero-first-outputs", "zero-first-outputs", "shifted-owner", "shifted-owner", "shifted-owner", "many-outputs", "bad-sig", "zero-sig", "wrong-owner", "wrong-owner-2nd", "wrong-owner-2nd", "foreign-sig", "replay-sig", "replay-sig", "unknown-ref"},
+	"owner":  {"valid", "valid", "bad-sig-first", "bad-sig-first", "zero-first-outputs", "zero-first-outputs", "shifted-owner", "shifted-owner", "shifted-owner", "many-outputs", "bad-sig", "zero-sig", "wrong-owner", "wrong-owner-2nd", "wrong-owner-2nd", "foreign-sig", "replay-sig", "replay-sig", "unknown-ref"},
 	"shape":  {"valid", "ts-old", "ts-last", "ts-next", "ts-future"},
 	"income": {"valid", "yield-new", "yield-new", "yield-twice", "yield-registered", "yield-pending", "yield-swap", "yield-swap"},
 	"alias":  {"valid", "yield-new", "yield-new", "yield-registered"},
@@ -126,7 +126,7 @@ func (sc *scenario) value(u *ledger.Utxo, at int64) uint64 {
 
 var txKinds = []string{"valid", "valid", "valid", "valid", "fee-exact", "fee-low", "fee-plus1", "double-spend", "duplicate", "bad-sig",
 	"zero-sig", "wrong-owner", "wrong-owner-2nd", "foreign-sig", "replay-sig", "unknown-ref", "bad-index", "ts-old", "ts-last", "ts-next", "ts-future", "overflow", "huge-output",
-	"yield-new", "yield-twice", "yield-registered", "yield-swap", "same-input-twice", "same-input-twice-rich", "spend-pooled", "spend-last-block", "yield-pending", "zero-output", "zero-first-outputs", "shifted-owner", "many-outputs", "consolidate"}
+	"yield-new", "yield-twice", "yield-registered", "yield-swap", "same-input-twice", "same-input-twice-rich", "spend-pooled", "spend-last-block", "yield-pending", "bad-sig-first", "zero-output", "zero-first-outputs", "shifted-owner", "many-outputs", "consolidate"}
 
 func (sc *scenario) makeTx(n *node.Node, kind string) (*ledger.Transaction, string) {
 	r := sc.rng
@@ -290,6 +290,34 @@ func (sc *scenario) makeTx(n *node.Node, kind string) (*ledger.Transaction, stri
 			in.Signature = o.Sign(u.u.OutputIndex(), u.u.TransactionId())
 		}
 		raw.Inputs = []node.RawInput{in}
+		tx, err := raw.Seal()
+		if err != nil {
+			return nil, ""
+		}
+		return tx, kind
+	case "bad-sig-first": // two inputs: the FIRST names its owner's key but carries a signature made by another wallet
+		// (invalid for that key), the LAST is the other wallet's own output, genuinely signed
+		var victim, own *utxoRef
+		for i := range usable {
+			for j := range usable {
+				if usable[i].owner != usable[j].owner && victim == nil {
+					victim, own = &usable[i], &usable[j]
+				}
+			}
+		}
+		if victim == nil {
+			return nil, ""
+		}
+		thief := own.owner
+		total := sc.value(victim.u, next) + sc.value(own.u, next)
+		if total <= S.MinFee+1 {
+			return nil, ""
+		}
+		raw := &node.RawTx{Timestamp: ts, Outputs: []node.RawOutput{{Address: thief.Address, Value: total - S.MinFee - 1}}}
+		raw.Inputs = []node.RawInput{
+			{OutputIndex: victim.u.OutputIndex(), TransactionId: victim.u.TransactionId(), PublicKey: victim.owner.PubHex, Signature: thief.Sign(victim.u.OutputIndex(), victim.u.TransactionId())},
+			{OutputIndex: own.u.OutputIndex(), TransactionId: own.u.TransactionId(), PublicKey: thief.PubHex, Signature: thief.Sign(own.u.OutputIndex(), own.u.TransactionId())},
+		}
 		tx, err := raw.Seal()
 		if err != nil {
 			return nil, ""
